@@ -126,7 +126,8 @@ bool exec_gen(ExecCtx &c) {
       if (!src) return true;
       int dst = op.a % NGEN;
       std::optional<Gen> tmp;
-      libcall(out, [&] { tmp.emplace(*src); });
+      const int cs = value_cat(c, src, 0, false);
+      libcall(out, [&] { as_lv(cs, *src, [&](auto &&ss) { tmp.emplace(SIM_FWD(ss)); }); });
       if (tmp) {
         sim::Exempt e;
         P.gen[dst].emplace(*tmp);
